@@ -10,6 +10,7 @@ import (
 	"go/types"
 	"os"
 	"strings"
+	"time"
 
 	"golang.org/x/tools/go/ssa"
 )
@@ -350,6 +351,9 @@ func (e *Exec) runFrame(fr *frame) {
 				continue
 			}
 			e.steps++
+			if e.steps&4095 == 0 && !e.cfg.deadline.IsZero() && time.Now().After(e.cfg.deadline) {
+				panic(engineAbort{kind: "bound", reason: "time budget exhausted inside a path"})
+			}
 			if e.steps > e.maxSteps {
 				panic(engineAbort{kind: "bound", reason: fmt.Sprintf("step bound %d exceeded", e.maxSteps)})
 			}
